@@ -28,6 +28,7 @@ structure Live (sk : Skeleton) : Prop where
   pubChecksClosed : sk.bcPublishChecksClosed = true
   invokeOutside : sk.clInvokeOutsideLock = true   -- CallClosure unlocks closuresLock before it calls the closure
   panicSites : sk.panicSitesCanonical = true      -- the stub panics only on failures of the link, never on an outcome of the call
+  freeNeverWaits : sk.clFreeNeverWaits = true     -- the deferred release of a call's closures waits for nobody
 
 theorem run_cons (sk : Skeleton) {s s1 s' : State} {a : Act} {as : List Act}
     (h1 : step sk s a = some s1) (h2 : run sk s1 as = some s') : run sk s (a :: as) = some s' := by
@@ -186,7 +187,7 @@ theorem callReturnOk_enabled (c : Nat) (hp : (s.calls c).pc = .decoded) :
       closures := freeClosures sk s c,
       calls := upd s.calls c { s.calls c with pc := .returned } } := by
   obtain ⟨hc, _, _⟩ := alive sk hv hr
-  simp [step, hc, hp, cl_free sk hv hr]
+  simp [step, hc, hp, canRelease, hv.freeNeverWaits, cl_free sk hv hr]
 
 /-- the panic path always completes: the stub recovers, reports the error, returns `(zero, e)` -/
 theorem callRecover_enabled (c e : Nat) (hp : (s.calls c).pc = .panicking e) :
@@ -195,7 +196,7 @@ theorem callRecover_enabled (c e : Nat) (hp : (s.calls c).pc = .panicking e) :
       calls := upd s.calls c { s.calls c with pc := .returned, outcome := .failed e },
       setters := upd s.setters c (.entered e) } := by
   obtain ⟨hc, _, _⟩ := alive sk hv hr
-  simp [step, hc, hp, hv.recovers, hv.setsErr, cl_free sk hv hr]
+  simp [step, hc, hp, hv.recovers, hv.setsErr, canRelease, hv.freeNeverWaits, cl_free sk hv hr]
 
 /-- entering a stub never waits — in particular `registerClosure` does not wait for a closure body
     that is running (whatever `s.running` is) -/
